@@ -81,3 +81,40 @@ def isinstance_facts(test, positive=True):
         names = tuple(dotted(k) or src(k) for k in kinds)
         return [(src(test.args[0]), names, positive)]
     return []
+
+
+def forward_paths(cfg, init_states, transfer, edge_transfer=None, max_states=5000):
+    """path-sensitive (powerset) variant: every node keeps the SET of abstract states that may arrive,
+    states are never merged.  States must be hashable (use tuples / frozensets of items).
+    transfer(node, state) -> state ; edge_transfer(node, label, state_in, state_out) -> state | None (infeasible)
+    Returns ins: node id -> set of states."""
+    ins = {cfg.entry: set(init_states)}
+    work = [(cfg.entry, s) for s in init_states]
+    n_states = 0
+    while work:
+        n, s = work.pop()
+        node = cfg.nodes[n]
+        sout = transfer(node, s)
+        for b, label in cfg.succ[n]:
+            if edge_transfer is not None:
+                s2 = edge_transfer(node, label, s, sout)
+            else:
+                s2 = s if label == 'exc' else sout
+            if s2 is None:
+                continue
+            bucket = ins.setdefault(b, set())
+            if s2 not in bucket:
+                bucket.add(s2)
+                n_states += 1
+                if n_states > max_states:
+                    raise RuntimeError('forward_paths: state explosion')
+                work.append((b, s2))
+    return ins
+
+
+def sdict(state):
+    return dict(state)
+
+
+def sfreeze(d):
+    return tuple(sorted(d.items()))
